@@ -1,3 +1,154 @@
-(* C08 — statements are added with the proofs; see DESIGN.md *)
+(* C08 — Long-term credentials: challenge, retry and authenticated delivery (abstract-message level; the RFC 8489 9.2.4 server is Monitors.server_verdict). Statements only; proofs live in the imported files. *)
 From Coq Require Import List NArith Bool.
-From Rustun Require Import Agent.Rto Agent.Model Agent.Monitors.
+Import ListNotations.
+From Rustun Require Import Agent.Rto Agent.Model Agent.Monitors Proofs.AgentInv Proofs.AgentTrace Proofs.AgentMech.
+Open Scope N_scope.
+
+(* the first request carries no credential attributes *)
+Theorem C08_first_request_bare :
+  forall (s : lt_mech) (app : list attr),
+         app_wf app ->
+         lt_st s = First ->
+         exists x : attrs, lt_prepare s (of_list app) = Some x /\ lt_cred_free (flatten x) = true.
+Proof. exact AgentMech.lt_first_request_bare_client. Qed.
+Print Assumptions C08_first_request_bare.
+
+(* in every reachable state the cached parameters are consistent: key = H(user, realm, password, chosen algorithm), SHA-256 integrity iff algorithms were offered, chosen algorithm = SHA-256 if listed else the last MD5 *)
+Theorem C08_params_ok :
+  forall (cf : config) (ops : list op) (s : lt_mech) (p : lt_params),
+         mech_ (fst (run (init cf (MLT {| lt_st := First; lt_pr := None |})) ops)) = MLT s ->
+         lt_pr s = Some p -> POk p.
+Proof. exact AgentMech.client_params_ok. Qed.
+Print Assumptions C08_params_ok.
+
+(* a 401 answered with Retry leaves parameters that agree with what the server sent *)
+Theorem C08_401_agrees :
+  forall (rel : bool) (mk : list txid) (s : lt_mech) (m : msg) (mk' : list txid) (s' : lt_mech),
+         m_class m = CError ->
+         get_code (rfc_filter (m_attrs m)) = Some 401 ->
+         lt_recv rel mk s m = (Some ERetry, mk', s') ->
+         exists (p : lt_params) (r : N) (n : N * N),
+           get_realm (rfc_filter (m_attrs m)) = Some r /\
+           get_nonce (rfc_filter (m_attrs m)) = Some n /\
+           s' = {| lt_st := Retry401; lt_pr := Some p |} /\
+           POk p /\ sv_agrees (sv_of_401 (rfc_filter (m_attrs m)) r n) p.
+Proof. exact AgentMech.lt_401_agrees. Qed.
+Print Assumptions C08_401_agrees.
+
+(* a 438 switches to the new nonce and changes nothing else *)
+Theorem C08_438_switches_nonce :
+  forall (rel : bool) (mk : list txid) (s : lt_mech) (m : msg) (mk' : list txid) 
+           (s' : lt_mech) (p : lt_params),
+         m_class m = CError ->
+         get_code (rfc_filter (m_attrs m)) = Some 438 ->
+         lt_pr s = Some p ->
+         lt_recv rel mk s m = (Some ERetry, mk', s') ->
+         exists n : N * N,
+           get_nonce (rfc_filter (m_attrs m)) = Some n /\
+           s' = {| lt_st := Retry438; lt_pr := Some (set_nonce p n) |} /\
+           p_nonce (set_nonce p n) = n /\
+           p_realm (set_nonce p n) = p_realm p /\
+           p_algs (set_nonce p n) = p_algs p /\
+           p_alg (set_nonce p n) = p_alg p /\
+           p_key (set_nonce p n) = p_key p /\
+           p_anon (set_nonce p n) = p_anon p /\ p_integ (set_nonce p n) = p_integ p.
+Proof. exact AgentMech.lt_438_switches_nonce. Qed.
+Print Assumptions C08_438_switches_nonce.
+
+(* every request formed in SubsequentRequest state, for EVERY application attribute list, is accepted by the 9.2.4 server that issued the parameters *)
+Theorem C08_subsequent_accepted :
+  forall (s : lt_mech) (p : lt_params) (sv : lt_mon) (app : list attr),
+         lt_st s = Subsequent ->
+         lt_pr s = Some p ->
+         POk p ->
+         sv_agrees sv p ->
+         exists x : attrs, lt_prepare s (of_list app) = Some x /\ server_verdict sv (flatten x) = 0.
+Proof. exact AgentMech.lt_subsequent_accepted. Qed.
+Print Assumptions C08_subsequent_accepted.
+
+(* known finding D6 as a theorem about the faithful model: the request formed right after a 401 has no integrity attribute (server verdict 1) *)
+Theorem C08_retry401_verdict :
+  forall (s : lt_mech) (p : lt_params) (sv : lt_mon) (app : list attr),
+         lt_st s = Retry401 ->
+         lt_pr s = Some p ->
+         sv_agrees sv p ->
+         exists x : attrs, lt_prepare s (of_list app) = Some x /\ server_verdict sv (flatten x) = 1.
+Proof. exact AgentMech.lt_retry401_verdict. Qed.
+Print Assumptions C08_retry401_verdict.
+
+(* known finding D7: the request formed right after a 438 is accepted only when no algorithm list was negotiated (verdict 2 otherwise) *)
+Theorem C08_retry438_verdict :
+  forall (s : lt_mech) (p : lt_params) (sv : lt_mon) (app : list attr),
+         lt_st s = Retry438 ->
+         lt_pr s = Some p ->
+         POk p ->
+         sv_agrees sv p ->
+         exists x : attrs,
+           lt_prepare s (of_list app) = Some x /\
+           server_verdict sv (flatten x) = match p_algs p with
+                                           | Some _ => 2
+                                           | None => 0
+                                           end.
+Proof. exact AgentMech.lt_retry438_verdict. Qed.
+Print Assumptions C08_retry438_verdict.
+
+(* success and ordinary error responses are accepted only if the integrity attribute of the agreed kind verifies under the derived key *)
+Theorem C08_accept_sound :
+  forall (rel : bool) (mk : list txid) (s : lt_mech) (m : msg) (mk' : list txid) (s' : lt_mech),
+         lt_recv rel mk s m = (None, mk', s') ->
+         (exists (p : lt_params) (a : attr),
+            lt_pr s = Some p /\
+            In a (rfc_filter (m_attrs m)) /\
+            keyd_eqb (mac_key a) (p_key p) = true /\
+            (p_integ p = IMI -> a_is_mi a = true) /\ (p_integ p = ISHA -> a_is_sha a = true)) /\
+         lt_st s' = Subsequent /\ lt_pr s' = lt_pr s /\ is_response m = true.
+Proof. exact AgentMech.lt_accept_sound. Qed.
+Print Assumptions C08_accept_sound.
+
+Theorem C08_client_delivery_sound :
+  forall (c : client) (now : N) (w : msg) (s : lt_mech) (c' : client) (r : reply) 
+           (evs : list event) (m : msg),
+         mech_ c = MLT s ->
+         step c (Recv now true w) = (c', r, evs) ->
+         In (Received m) evs ->
+         m = wmsg w /\
+         evs = [Received m] /\
+         r = ROk None /\
+         is_response w = true /\
+         (exists (mk' : list txid) (s' : lt_mech),
+            lt_recv (reliable (cfg c)) (markers c) s (wmsg w) = (None, mk', s') /\
+            mech_ c' = MLT s' /\
+            markers c' = mk' /\
+            lt_st s' = Subsequent /\
+            lt_pr s' = lt_pr s /\
+            (exists (p : lt_params) (a : attr),
+               lt_pr s = Some p /\
+               In a (rfc_filter (m_attrs w)) /\
+               keyd_eqb (mac_key a) (p_key p) = true /\
+               (p_integ p = IMI -> a_is_mi a = true) /\ (p_integ p = ISHA -> a_is_sha a = true))).
+Proof. exact AgentMech.client_received_lt. Qed.
+Print Assumptions C08_client_delivery_sound.
+
+Theorem C08_indication_refused :
+  forall (rel : bool) (mk : list txid) (s : lt_mech) (m : msg),
+         m_class m = CIndication -> fst (fst (lt_recv rel mk s m)) = Some EDiscarded.
+Proof. exact AgentMech.lt_indication_refused. Qed.
+Print Assumptions C08_indication_refused.
+
+Theorem C08_send_indication_ignored :
+  forall (c : client) (s : lt_mech) (id : txid) (method : N) (app : list attr) (room : bool),
+         mech_ c = MLT s -> step c (Indication id method app room) = (c, RIgnored, []).
+Proof. exact AgentMech.lt_send_indication_ignored. Qed.
+Print Assumptions C08_send_indication_ignored.
+
+(* every MAC the client puts on the wire is the mechanism's own (keyed with the derived key); an application-supplied one is dropped; the password occurs only inside key descriptors *)
+Theorem C08_outgoing_integrity_is_own :
+  forall (s : lt_mech) (x : attrs) (p : lt_params) (y : attrs) (a : attr),
+         AInv x ->
+         types_nodup (ord x) = true ->
+         lt_pr s = Some p ->
+         lt_prepare s x = Some y ->
+         In a (flatten y) ->
+         is_integ a = true -> a = integ_attr p /\ (lt_st s = Retry438 \/ lt_st s = Subsequent).
+Proof. exact AgentMech.lt_prepare_integrity. Qed.
+Print Assumptions C08_outgoing_integrity_is_own.
